@@ -1,6 +1,7 @@
 package main
 
 import (
+	"runtime"
 	"bufio"
 	"bytes"
 	"encoding/json"
@@ -241,6 +242,23 @@ func cmdCheck(args []string) int {
 		}
 	}
 	t0 := time.Now()
+	// watchdog: a change that makes the generator run away (unbounded unfolding of a type or of
+	// paths) must end as a reported obligation, not as an out-of-memory kill of the machine
+	go func() {
+		for {
+			time.Sleep(300 * time.Millisecond)
+			var ms runtime.MemStats
+			runtime.ReadMemStats(&ms)
+			if ms.HeapAlloc > 10<<30 {
+				rp := filepath.Join(*verif, "replays", *prop, "engine_memory.json")
+				os.MkdirAll(filepath.Dir(rp), 0755)
+				data, _ := json.MarshalIndent(map[string]interface{}{"property": *prop, "failure": Failure{Obligation: "engine/memory", Detail: "the verification-condition generator exceeded 10 GiB on this tree: some function under contract left the supported subset in a way that makes symbolic execution run away", Backend: "attach", NoInput: true}}, "", " ")
+				os.WriteFile(rp, data, 0644)
+				fmt.Printf("VIOLATION property=%s replay=%s no-failing-input-found\n  obligation engine/memory: generator exceeded its memory budget\n", *prop, rp)
+				os.Exit(1)
+			}
+		}
+	}()
 	props, err := loadProps(*verif)
 	if err != nil {
 		fmt.Println("ENGINE-ERROR:", err)
